@@ -89,6 +89,7 @@ func streamEval(c *Ctx, cs Case, prop string) {
 	if model != goObs {
 		c.Fail(Failure{Kind: "tie", What: "ReadSignatureDatabase: model and implementation disagree", Case: cs, Model: clip(model), Go: clip(goObs)})
 	}
+	c.GenTie(cs, "ReadSignatureDatabase / Bytes", model, "gen.sigdb.read", hx(b))
 	fail := func(what, matcher string) {
 		c.Fail(Failure{Kind: "property", Matcher: matcher, What: what, Case: cs, Go: clip(goObs), Spec: clip(spec)})
 	}
